@@ -75,7 +75,11 @@ def infer_redirection(url, recursive=True):
 
                 # Basic relative url
                 elif potential_target.startswith("/"):
-                    target = urljoin(url, potential_target)
+                    # NOTE: urljoin raises on urls it cannot parse
+                    try:
+                        target = urljoin(url, potential_target)
+                    except ValueError:
+                        return url
 
                 # Idiotic youtube redirections
                 elif "youtube.com/redirect?" in url:
